@@ -11,7 +11,7 @@
 //! (no watchdog).
 
 use super::prelude::*;
-use crypto_bigint::{U64, U128, U192, U256};
+use crypto_bigint::{CheckedAdd, CheckedMul, CheckedSub, Integer, InvMod, U64, U128, U192, U256};
 use der::Decode;
 
 /// Garbage byte strings: empty, short, long, all-zero, all-ones, DER/RLP-looking prefixes.
@@ -40,7 +40,10 @@ fn garbage(c: &mut Ctx, max_len: usize) -> Vec<u8> {
     v
 }
 
-fn hostile_uint<const L: usize>(c: &mut Ctx) {
+fn hostile_uint<const L: usize>(c: &mut Ctx)
+where
+    Uint<L>: InvMod<Output = Uint<L>>,
+{
     let bits = 64 * L as u32;
     let shifts = [0u32, 1, 63, 64, 65, bits - 1, bits, bits + 1, 2 * bits, u32::MAX - 1, u32::MAX, 1 << 31];
     for (a, b) in c.scaled(4, |c| c.inputs2(L, L)) {
@@ -60,7 +63,7 @@ fn hostile_uint<const L: usize>(c: &mut Ctx) {
         no_panic!(c, call(|| x.wrapping_sub(&y)); a, b);
         no_panic!(c, call(|| x.wrapping_mul(&y)); a, b);
         // inversion with an arbitrary (zero, even, odd) modulus and arbitrary value
-        no_panic!(c, call(|| opt(x.inv_mod(&y)).is_some()); a, b);
+        no_panic!(c, call(|| opt(InvMod::inv_mod(&x, &y)).is_some()); a, b);
         no_panic!(c, call(|| opt(x.checked_sqrt()).is_some()); a);
         let s = shifts[c.below(shifts.len())];
         no_panic!(c, call(|| copt(x.overflowing_shl(s)).is_some()); a, s);
@@ -132,7 +135,25 @@ fn hostile_decoders(c: &mut Ctx) {
         no_panic!(c, call(|| U192::from_str_radix_vartime(&text, radix).is_ok()); text, radix);
         no_panic!(c, call(|| BoxedUint::from_str_radix_vartime(&text, radix).is_ok()); text, radix);
         no_panic!(c, call(|| BoxedUint::from_str_radix_with_precision_vartime(&text, radix, prec).is_ok()); text, radix, prec);
-        no_panic!(c, call(|| opt(BoxedUint::from_be_hex(&text, prec)).is_some()); text, prec);
+        // right length, arbitrary characters (the wrong-length behaviour has its own case)
+        let nl = c.below(4);
+        let hex: String = (0..16 * nl).map(|_| if c.below(4) == 0 { (c.word() as u8 & 0x7f) as char } else { b"0123456789abcdefABCDEF"[c.below(22)] as char }).collect();
+        let hprec = 64 * nl as u32;
+        no_panic!(c, call(|| opt(BoxedUint::from_be_hex(&hex, hprec)).is_some()); hex, hprec);
+    }
+}
+
+/// `BoxedUint::from_be_hex` returns a `CtOption` and documents no panic: a string whose length
+/// does not match the precision must be rejected (none), not panic.
+fn boxed_hex_wrong_length(c: &mut Ctx) {
+    for prec in [0u32, 1, 63, 64, 65, 128, 192] {
+        for len in [0usize, 1, 2, 15, 16, 17, 31, 32, 33, 48] {
+            if c.done() {
+                return;
+            }
+            let hex: String = (0..len).map(|_| b"0123456789abcdef"[c.below(16)] as char).collect();
+            no_panic!(c, call(|| opt(BoxedUint::from_be_hex(&hex, prec)).is_some()); hex, prec);
+        }
     }
 }
 
@@ -173,6 +194,7 @@ pub fn cases() -> Vec<Case> {
     case!(v, "BoxedUint option/wrapping forms with arbitrary arguments", hostile_boxed);
     case!(v, "decoders (DER, RLP, slices, hex, radix) with garbage", hostile_decoders);
     case!(v, "BoxedUint::from_str_radix_vartime(\"0\") yields a usable value", boxed_zero_numeral);
+    case!(v, "BoxedUint::from_be_hex with a string of the wrong length", boxed_hex_wrong_length);
     // every case of every other property, panic-only
     for p in super::PROPS {
         if p == "C11" {
